@@ -254,9 +254,36 @@ def toArrow (names : List String) (rows : List (List α)) (size : Option Int) : 
   if Gen.ArrowExpr.toArrowEmptyTest (rows.length : Int) then { names := names, cols := List.replicate names.length [] }
   else { names := names, cols := transposeN names.length rows }
 
+/-! ## The kind of object a size is
+
+A size limit is an integer; in Python it arrives as a built-in `int`, a `bool`, an `int` subclass, or a numpy
+integer scalar.  A guard that tests the *type* of the argument (`isinstance(size, int)`) sends every kind that fails
+the test down the "no limit" branch.  The kinds that pass are *generated* (`Gen.ArrowExpr.sizeKinds`,
+`toArrowSizeKinds`; every kind when the guard has no type test). -/
+
+/-- The kinds of integer object the property's "all size limits" covers. -/
+def demandedSizeKinds : List String := ["int", "bool", "int-subclass", "numpy-integer"]
+
+/-- The size as the code behind a guard with this type test sees it: a size of a kind that fails the type test
+takes the branch of "no size". -/
+def sizeSeen {β : Type} (kinds : List String) (kind : String) (size : Option β) : Option β :=
+  if kind ∈ kinds then size else none
+
+/-- `from_arrow(tables, size)` with a size that is an object of kind `kind`. -/
+def fromArrowInputKind (x : Input α) (kind : String) (size : Option Nat) : Option (List α) :=
+  fromArrowInput x (sizeSeen Gen.ArrowExpr.sizeKinds kind size)
+
+/-- `to_arrow(frame, size)` with a size that is an object of kind `kind`. -/
+def toArrowKind (names : List String) (rows : List (List α)) (kind : String) (size : Option Int) : ColTable α :=
+  toArrow names rows (sizeSeen Gen.ArrowExpr.toArrowSizeKinds kind size)
+
 /-- `DataFrame.from_arrow(df.arrow(size))`: the rows that come back. -/
 def roundtripRows (names : List String) (rows : List (List α)) (size : Option Int) : List (List α) :=
   fromArrowRows [[(toArrow names rows size).rows]] none
+
+/-- …with a size that is an object of kind `kind`. -/
+def roundtripRowsKind (names : List String) (rows : List (List α)) (kind : String) (size : Option Int) : List (List α) :=
+  roundtripRows names rows (sizeSeen Gen.ArrowExpr.toArrowSizeKinds kind size)
 
 /-! ## Column typing -/
 
